@@ -33,6 +33,7 @@ ASSUMPTIONS = [
     "every input carries every axis boundary_width names (the statement's restriction): widths are given only for dummy axes present in all inputs",
     "the trimmer takes output cell i from input cell i modulo the received length, sums over core axes the output does not have - any function 'that trims what was padded' is an instance of cutting by index",
     "loop (non-core) dimensions are compared as a set in front of the core dimensions",
+    "received cells that are new along two padded axes (corners) are not compared (the order of padding is not part of the statement)",
 ]
 LAY = {"X": ("center", "left", "outer"), "Y": ("center", "left")}
 NS = {"X": 3, "Y": 2}
@@ -42,6 +43,8 @@ RULESETS = (
     dict(boundary={"X": "fill", "Y": "periodic"}, fill_value={"X": -3.0, "Y": 1.0}),
     dict(boundary="fill", fill_value=5.0),
     dict(boundary={"X": "periodic", "Y": "extend"}, fill_value=None),
+    dict(boundary="fill", fill_value=0.0),
+    dict(boundary={"X": "fill", "Y": "fill"}, fill_value={"X": 0.0, "Y": 2.0}),
 )
 ROUTES = ("function", "method", "decorator", "decorator-call-overrides", "annotated")
 _SIGS = None
@@ -85,7 +88,8 @@ def grid(rs=None):
     from xgcm import Grid
 
     ds = S.make_ds(LAY, NS, extra={"t": 2})
-    kw = {}
+    # Grid-level settings that every rule set below must override
+    kw = dict(boundary="fill", fill_value=9.0)
     with warnings.catch_warnings():
         warnings.simplefilter("ignore")
         return Grid(ds, coords=S.grid_coords(LAY), periodic=False, autoparse_metadata=False, **kw)
@@ -257,7 +261,7 @@ def run_case(rec, si, bi, sched, seed, g=None):
         w = WIDTHS[(sched + si + 3 * j + bi) % 4]
         if w != (0, 0) or (sched + j) % 2:
             bw_dummy[n_] = w
-    rs = RULESETS[(sched + si // 3) % 4]
+    rs = RULESETS[(sched + si // 3) % len(RULESETS)]
     route = ROUTES[(sched + si) % 5]
     das = build_inputs(sig, binding, sched + si, seed)
     bw_real = {binding[n_]: w for n_, w in bw_dummy.items()}
@@ -293,13 +297,24 @@ def run_case(rec, si, bi, sched, seed, g=None):
         except ValueError:
             rec.violation("received", "loop-dims-shape", dict(case, arg=k), list(ea.shape), list(ga.shape))
             return
-        if not np.array_equal(gb, eb):
-            inner = tuple(slice(None) for _ in range(gb.ndim - nc))
+        # cells that are new along two padded axes (corners) are not determined by the statement
+        corner = np.zeros(gb.shape[gb.ndim - nc:], dtype=int)
+        for j, (n_, p) in enumerate(a):
+            lo, hi = bw_real.get(binding[n_], (0, 0))
+            m_ = gb.shape[gb.ndim - nc + j]
+            new = np.ones(m_, dtype=int)
+            new[lo: m_ - hi] = 0
+            shape = [1] * nc
+            shape[j] = m_
+            corner = corner + new.reshape(shape)
+        keep = np.broadcast_to(corner < 2, gb.shape)
+        if not np.array_equal(gb[keep], eb[keep]):
             cls = "values:padding-or-order-of-core-dims"
             rec.violation("received", cls, dict(case, arg=k), eb, gb)
             return
     # outputs
-    exp_out = make_trimmer(sig, binding, out_lengths, [])(*arranged)
+    # the return path is judged on what the function actually received (validated above)
+    exp_out = make_trimmer(sig, binding, out_lengths, [])(*got_args)
     exp_out = exp_out if isinstance(exp_out, tuple) else (exp_out,)
     res_t = tuple(res) if isinstance(res, (tuple, list)) else (res,)
     if len(res_t) != len(outs):
